@@ -121,7 +121,7 @@ def build_traces(path, tier, seed):
              "sd": enc_seq(got["s_d"]), "sv": enc_seq(got["s_v"]), "sa": enc_seq(got["s_a"])},
             {"kind": "object", "n": n, "dt": dt, "xi": xi, "min_dt_ratio": q, "T_over_dt": [p / dt for p in periods], "shape": shape})
     # the two inputs named in known_findings.json (C03-input-energy-negative) are always exercised
-    for (n, a0, a1, ratio, xi, dt) in [(249, 0.2603, 0.2527, 0.2, 0.118, 0.005), (205, 0.967, 0.678, 0.35, 0.554, 0.005)]:
+    for (n, a0, a1, ratio, xi, dt) in [(10, 0.9, 0.3, 1.06, 0.05, 0.01), (14, 0.8, 0.2, 1.05, 0.3, 0.01), (205, 0.967, 0.678, 0.35, 0.554, 0.005)]:
         a = np.linspace(a0, a1, n)
         T = ratio * dt
         o = eqsig.AccSignal(a, dt)
